@@ -285,9 +285,9 @@ enum MsgColor {
 
 /// Write `bytes` to `dest` so that a write which fails half-way (full disk, quota, size limit) leaves
 /// `dest` as it was: an absent or regular destination is written next to itself and then moved into
-/// place, and so is the regular file behind a symbolic link (the link stays). Anything else (device,
-/// pipe, dangling link, directory) cannot be replaced that way and is written directly, as is a
-/// destination whose directory does not accept a new file.
+/// place, and so is the file a symbolic link names (the link stays). Anything else (device, pipe,
+/// directory) cannot be replaced that way and is written directly, as is a destination whose
+/// directory does not accept a new file.
 fn write_object_file(dest: &Path, bytes: &[u8]) -> std::io::Result<()> {
     let write_to = |path: &Path| -> std::io::Result<()> {
         let mut file = File::create(path)?;
@@ -295,9 +295,16 @@ fn write_object_file(dest: &Path, bytes: &[u8]) -> std::io::Result<()> {
         file.flush()
     };
 
-    // What a link names is what gets written
-    let resolved = fs::canonicalize(dest);
-    let target = resolved.as_deref().unwrap_or(dest);
+    // What a link names is what gets written, whether it exists yet or not
+    let mut target = dest.to_path_buf();
+    for _ in 0..40 {
+        let Ok(link) = fs::read_link(&target) else {
+            break;
+        };
+        // A relative link is relative to the directory it lies in
+        target = target.parent().unwrap_or(Path::new("")).join(link);
+    }
+    let target = target.as_path();
 
     let replaceable = match fs::symlink_metadata(target) {
         Ok(metadata) => metadata.file_type().is_file(),
